@@ -20,8 +20,8 @@ package internal
 //@   ensures  integral: isInt(result)
 //@   ensures  nonneg: 0 <= result
 //@   ensures  range: result <= real(width)
-//@   ensures  zero: current <= 0 || total <= 0 ==> result == 0
-//@   ensures  full: 0 < total && total <= current ==> result == real(width)
+//@   ensures  zero@C08,C20: current <= 0 || total <= 0 ==> result == 0
+//@   ensures  full@C08,C20: 0 < total && total <= current ==> result == real(width)
 //@   ensures  nearest@~C08,C20: 0 <= current && current < total ==>
 //@              abs(result - real(width)*real(current)/real(total)) <= 0.5 + real(width)/pow2(50)
 
